@@ -786,10 +786,14 @@ theorem lastBefore_none (c : Chart) (h : WFChart c) (r : Name) (hr : c.root = so
   intro s hst
   exact aux (rk s + 1) s (Nat.lt_succ_self _) hst
 
-theorem createStep_semi (c : Chart) (h : WFChart c) {cfg : List Name} (mem : List (Name × List Name))
-    (hS : Semi c cfg) {t : Trans} (ht : t ∈ c.transitions) (hs : t.source ∈ cfg) (ev : Option Event) :
-    Semi c (applyMicro c (cfg, mem) (createStep c cfg ev t)).1 := by
-  have hn := nodup_applyMicro c (cfg, mem) (createStep c cfg ev t) hS.nodup
+/-- a step planned in configuration `cfg0` and applied to `cfg`, which agrees with `cfg0` on the
+    subtree the step exits -/
+theorem createStep_semi_gen (c : Chart) (h : WFChart c) {cfg cfg0 : List Name} (mem : List (Name × List Name))
+    (hS : Semi c cfg) {t : Trans} (ht : t ∈ c.transitions) (hs : t.source ∈ cfg) (ev : Option Event)
+    (hag : ∀ tg, t.target = some tg → ∀ z, Sub c (lastBefore c t.source (c.lca t.source tg)) z →
+      (z ∈ cfg ↔ z ∈ cfg0)) :
+    Semi c (applyMicro c (cfg, mem) (createStep c cfg0 ev t)).1 := by
+  have hn := nodup_applyMicro c (cfg, mem) (createStep c cfg0 ev t) hS.nodup
   obtain ⟨hsrc, htgt⟩ := h.transitions t ht
   unfold createStep at hn ⊢
   cases htg : t.target with
@@ -799,9 +803,10 @@ theorem createStep_semi (c : Chart) (h : WFChart c) {cfg : List Name} (mem : Lis
   | some tg =>
     simp only [htg] at hn ⊢
     have htgs := htgt tg htg
+    have hag := hag tg htg
     cases hl : c.lca t.source tg with
     | some l =>
-      simp only [hl] at hn ⊢
+      simp only [hl] at hn hag ⊢
       obtain ⟨hls, hlt, _⟩ := lca_spec c h.tree _ _ l hl
       obtain ⟨xp, xs⟩ := lastBefore_spec c h.tree t.source l hls
       obtain ⟨yp, ys⟩ := lastBefore_spec c h.tree tg l hlt
@@ -820,9 +825,9 @@ theorem createStep_semi (c : Chart) (h : WFChart c) {cfg : List Name} (mem : Lis
       unfold enteredPath at hent
       simp only
       rw [hent]
-      have hex : z ∈ (List.filter cfg.contains (isort c.leRevDepthName (c.descendants (lastBefore c t.source (some l)))) ++
-            if cfg.contains (lastBefore c t.source (some l)) = true then [lastBefore c t.source (some l)] else []) ↔
-          z ∈ cfg ∧ Sub c (lastBefore c t.source (some l)) z := by
+      have hex : z ∈ (List.filter cfg0.contains (isort c.leRevDepthName (c.descendants (lastBefore c t.source (some l)))) ++
+            if cfg0.contains (lastBefore c t.source (some l)) = true then [lastBefore c t.source (some l)] else []) ↔
+          z ∈ cfg0 ∧ Sub c (lastBefore c t.source (some l)) z := by
         simp only [List.mem_append, List.mem_filter, mem_isort, List.contains_iff_mem,
           mem_descendants c h _ hxst, Sub]
         constructor
@@ -836,15 +841,16 @@ theorem createStep_semi (c : Chart) (h : WFChart c) {cfg : List Name} (mem : Lis
           · left; exact ⟨e, h1⟩
       constructor
       · rintro (⟨h1, h2⟩ | h1)
-        · exact Or.inl ⟨h1, fun hsub => h2 (hex.mpr ⟨h1, hsub⟩)⟩
+        · exact Or.inl ⟨h1, fun hsub => h2 (hex.mpr ⟨(hag z hsub).mp h1, hsub⟩)⟩
         · exact Or.inr ⟨h1.1.elim (fun e => Or.inl e.symm) Or.inr, h1.2⟩
       · rintro (⟨h1, h2⟩ | h1)
         · exact Or.inl ⟨h1, fun hin => h2 (hex.mp hin).2⟩
         · exact Or.inr ⟨h1.1.elim (fun e => Or.inl e.symm) Or.inr, h1.2⟩
     | none =>
-      simp only [hl] at hn ⊢
+      simp only [hl] at hn hag ⊢
       obtain ⟨r, hr, _, _⟩ := h.root
       have hlb := lastBefore_none c h r hr t.source hsrc
+      rw [hlb] at hag
       apply semi_path c h htgs _ hn
       intro z
       rw [mem_applyMicro, hlb]
@@ -864,13 +870,22 @@ theorem createStep_semi (c : Chart) (h : WFChart c) {cfg : List Name} (mem : Lis
           apply h2
           simp only [List.mem_append, List.mem_filter, mem_isort, List.contains_iff_mem, mem_descendants c h r hrst]
           by_cases e : z = r
-          · right; rw [e]; simp [hS.root r hr]
-          · left; exact ⟨root_anc c h r hr z (hS.state z h1) e, h1⟩
+          · right
+            have : r ∈ cfg0 := (hag r (Or.inl rfl)).mp (hS.root r hr)
+            rw [e]; simp [this]
+          · have ha := root_anc c h r hr z (hS.state z h1) e
+            left; exact ⟨ha, (hag z (Or.inr ha)).mp h1⟩
         · exact Or.inr h1
         · exact Or.inl h1.symm
       · rintro (e | e)
         · exact Or.inr (Or.inr e.symm)
         · exact Or.inr (Or.inl e)
+
+
+theorem createStep_semi (c : Chart) (h : WFChart c) {cfg : List Name} (mem : List (Name × List Name))
+    (hS : Semi c cfg) {t : Trans} (ht : t ∈ c.transitions) (hs : t.source ∈ cfg) (ev : Option Event) :
+    Semi c (applyMicro c (cfg, mem) (createStep c cfg ev t)).1 :=
+  createStep_semi_gen c h mem hS ht hs ev (fun _ _ _ _ => Iff.rfl)
 
 end Sismic
 
